@@ -31,7 +31,7 @@ def lib(name, openmp=False):
     c = os.path.join(REPO, "c")
     if name == "phonopy":
         srcs = [os.path.join(c, f) for f in ("phonopy.c", "dynmat.c", "derivative_dynmat.c", "rgrid.c", "tetrahedron_method.c")]
-        flags = []
+        flags = ["-Dstatic="]
     else:
         srcs = [os.path.join(c, name + ".c")]
         flags = ["-Dstatic="]
@@ -56,3 +56,11 @@ def num(s):
 
 def witness(model, key):
     return num(model["pvc!w!" + key])
+
+
+def py_eval(code, timeout=120):
+    """Run a snippet with the repository's interpreter against /repo (the same tree the VCs came from)."""
+    env = dict(os.environ)
+    env["PYTHONPATH"] = REPO
+    p = subprocess.run(["/venv/bin/python", "-c", code], capture_output=True, text=True, timeout=timeout, env=env, cwd="/tmp")
+    return p.returncode, p.stdout.strip(), p.stderr.strip()[-2000:]
